@@ -4,6 +4,8 @@ pub mod driver;
 pub mod engine;
 pub mod gens;
 pub mod props;
+pub mod refwire;
+pub mod w_server;
 pub mod rt;
 
 pub use engine::{Entry, entry};
